@@ -163,8 +163,11 @@ def get_numbered_lines(content: str):
         # but without the indentation.
         # Also, if there's an active "operator" like "or", we also continue to the next line
         text = raw_line
-        while i < len(raw_lines) - 1 and text[-1] == "\\" or text.endswith(" or"):
+        while i < len(raw_lines) - 1 and (text[-1] == "\\" or text.endswith(" or")):
             i += 1
+            if raw_lines[i].strip() == "" and i < len(raw_lines) - 1:
+                # Blank lines are not part of the statement
+                continue
             if text[-1] == "\\":
                 text = text[0:-1]
             if text[-1] != " ":
